@@ -228,4 +228,139 @@ theorem elsL_toTreeL : ∀ (ks : List HN) (p : Option Nat), elsL (toTreeL ks) = 
   | k :: ks, p => by simp [els_toTree k p, elsL_toTreeL ks p]
 end
 
+/-! ### every attribute store of a parsed document is a dict; `getHTML` of the two plain-parser models -/
+
+mutual
+theorem treeInv_of_els : ∀ t : Node, (∀ x ∈ els t, Inv x.2) → TreeInv t
+  | .text _, _ => by simp [TreeInv]
+  | .elem n a sc ks, h => by
+    simp only [els_elem, List.mem_cons, forall_eq_or_imp] at h
+    simp only [TreeInv]
+    exact ⟨h.1, treeInvL_of_elsL ks h.2⟩
+theorem treeInvL_of_elsL : ∀ ks : List Node, (∀ x ∈ elsL ks, Inv x.2) → TreeInvL ks
+  | [], _ => by simp [TreeInvL]
+  | k :: ks, h => by
+    simp only [elsL_cons, List.mem_append] at h
+    simp only [TreeInvL]
+    exact ⟨treeInv_of_els k (fun x hx => h x (Or.inl hx)), treeInvL_of_elsL ks (fun x hx => h x (Or.inr hx))⟩
+end
+
+theorem created_inv (tok : Token) : ∀ x ∈ created tok, Inv x.2 := by
+  cases tok <;> simp [created] <;> exact inv_intake _ inv_empty
+
+theorem run_treeInv (ts : List Token) (b : BState) (h : run BState.init ts = .ok b) :
+    ∀ r, b.doc.root = some r → TreeInv r := by
+  intro r hr
+  apply treeInv_of_els
+  have := doc_els ts b h
+  simp only [docEls, hr] at this
+  rw [this]
+  intro x hx
+  obtain ⟨tok, _, hx⟩ := List.mem_flatMap.mp hx
+  exact created_inv tok x hx
+
+theorem feedTokens_treeInv {toks : List Token} {d : Doc} {sp : Bool} (h : feedTokens toks = .doc d sp) :
+    ∀ r, d.root = some r → TreeInv r := by
+  unfold feedTokens at h
+  rcases run_outcomes toks BState.init with ⟨b, h1⟩ | h1
+  · rw [h1] at h
+    simp only [FeedResult.ofPass, FeedResult.doc.injEq] at h
+    rw [← h.1]; exact run_treeInv toks b h1
+  · rw [h1] at h
+    rcases run_outcomes (wrapToks toks) BState.init with ⟨b, h2⟩ | h2
+    · rw [h2] at h
+      simp only [FeedResult.ofPass, FeedResult.doc.injEq] at h
+      rw [← h.1]; exact run_treeInv _ b h2
+    · rw [h2] at h; simp [FeedResult.ofPass] at h
+
+/-- the elements of the document `feed` reports: one per start token of the pass that succeeded, in token order -/
+theorem feedTokens_els {toks : List Token} {d : Doc} {sp : Bool} (h : feedTokens toks = .doc d sp) :
+    docEls d = (if sp then wrapToks toks else toks).flatMap created := by
+  unfold feedTokens at h
+  rcases run_outcomes toks BState.init with ⟨b, h1⟩ | h1
+  · rw [h1] at h
+    simp only [FeedResult.ofPass, FeedResult.doc.injEq] at h
+    rw [← h.1, ← h.2]; exact doc_els toks b h1
+  · rw [h1] at h
+    rcases run_outcomes (wrapToks toks) BState.init with ⟨b, h2⟩ | h2
+    · rw [h2] at h
+      simp only [FeedResult.ofPass, FeedResult.doc.injEq] at h
+      rw [← h.1, ← h.2]; exact doc_els _ b h2
+    · rw [h2] at h; simp [FeedResult.ofPass] at h
+
+theorem doctypeLine_eq (dt : Option Str) :
+    Fmt.doctypeLine dt = (match dt with
+      | some d => if d.isEmpty then [] else '<' :: '!' :: d ++ ['>', '\n']
+      | none => []) := by
+  cases dt with
+  | none => rfl
+  | some d => simp only [Fmt.doctypeLine]; split <;> simp [str]
+
+/-- `getHTML` of the formatter model's plain parser on a root that is (up to the ghost flags) the image of `r` -/
+theorem docHTML_agree (dt : Option Str) (r : Node) (hr : TreeInv r) {n' : Fmt.Node} (hn : eraseN n' = toFmt r) :
+    Fmt.docHTML dt (some n') = .ok (AHP.docHTML dt r) := by
+  cases n' with
+  | text v s =>
+    cases r with
+    | text s' =>
+      simp only [eraseN_text, toFmt_text, Fmt.Node.text.injEq, true_and] at hn
+      simp only [Fmt.docHTML, AHP.docHTML, doctypeLine_eq, hn]
+      rfl
+    | elem n a sc ks => simp at hn
+  | elem k n st sc ind kids =>
+    cases r with
+    | text s' => simp at hn
+    | elem n2 a sc2 ks =>
+      simp only [eraseN_elem, toFmt_elem, Fmt.Node.elem.injEq] at hn
+      obtain ⟨rfl, rfl, rfl, rfl, rfl, h6⟩ := hn
+      simp only [TreeInv] at hr
+      have hin : Fmt.innerL kids = htmlL ks := by rw [← innerL_erase, h6, fmt_innerL ks hr.2]
+      have hout : Fmt.outer (.elem .normal n (toF a) sc [] kids) = (Node.elem n a sc ks).html := by
+        rw [← outer_erase, eraseN_elem, h6, ← toFmt_elem, fmt_outer _ (by simp only [TreeInv]; exact hr)]
+      simp only [Fmt.docHTML, AHP.docHTML, doctypeLine_eq, Node.innerHTML, hin, hout]
+      have hw : Fmt.wrapper = wrapperName := rfl
+      rw [hw]
+      split <;> rfl
+
+/-- **`parseStr` + `getHTML` of the two plain-parser models agree** on every token list of the domain -/
+theorem plain_html_agree (toks : List Token) (hd : FeedDom toks) :
+    Fmt.Plain.html (toks.map tokF) =
+      (match feedTokens toks with
+       | .doc d _ => (match d.html with | some s => .ok s | none => .error .noRoot)
+       | .raised _ => .error .multipleRoot) := by
+  have h := feed_agree toks hd
+  unfold Fmt.Plain.html
+  cases hf : feedTokens toks with
+  | raised e =>
+    rw [hf] at h
+    cases hp : Fmt.Plain.feed (toks.map tokF) with
+    | ok s => rw [hp] at h; simp [feedViewF, Except.map] at h
+    | error e' =>
+      rw [hp] at h
+      simp only [feedViewF, Except.map, Except.error.injEq] at h
+      simp [h]
+  | doc d sp =>
+    rw [hf] at h
+    cases hp : Fmt.Plain.feed (toks.map tokF) with
+    | error e' => rw [hp] at h; simp [feedViewF, Except.map] at h
+    | ok s =>
+      rw [hp] at h
+      simp only [feedViewF, Except.map, Except.ok.injEq, viewF, viewB, Prod.mk.injEq] at h
+      simp only [Doc.html]
+      rw [h.1]
+      cases hr : d.root with
+      | none =>
+        rw [hr] at h
+        have : s.root = none := by simpa using h.2
+        simp [this, Fmt.docHTML]
+      | some r =>
+        rw [hr] at h
+        cases hs : s.root with
+        | none => rw [hs] at h; simp at h
+        | some n' =>
+          rw [hs] at h
+          simp only [Option.map_some, Option.some.injEq] at h
+          rw [docHTML_agree d.doctype r (feedTokens_treeInv hf r hr) h.2]
+          rfl
+
 end AHP.TM
